@@ -1,9 +1,10 @@
 (* The scanner of ScanModel.v once more, PARAMETERISED by the statement skeleton of
-   lightmotif/src/scan.rs that translate/scan_skeleton.py extracts into GenScan.v on every
+   lightmotif/src/scan.rs that translate/scan_skel.py extracts into GenScan.v on every
    run: which comparison each test uses, whether a padding candidate is skipped
    (`continue`) or ends the candidate loop (`break`), whether the block end is clipped to
-   the sequence rows, in which order hits are pushed and popped, and which score feeds the
-   pruning bound of max().  Executable definitions only.  ShapeProofs.v shows that at the
+   the sequence rows, which terms make up the candidate index, in which order hits are
+   pushed and popped, and which score feeds the pruning bound of max() (initially and at
+   every replacement of the best hit).  Executable definitions only.  ShapeProofs.v shows that at the
    reference skeleton this is ScanModel's scanner, C02Source.v / C03Source.v restate the
    property theorems for the skeleton read from the source. *)
 From Coq Require Import List Arith Bool.
@@ -25,12 +26,26 @@ Inductive bound_src := BoundScaleScore     (* self.dm.scale(score) *)
                      | BoundDscore         (* the candidate's own u8 score *)
                      | BoundKeep.          (* not updated *)
 
+(* what best_discrete starts from when a buffered hit survives the filter *)
+Inductive init_src := InitScaleHitScore    (* Some(hit) => self.dm.scale(hit.score) *)
+                    | InitScaleThreshold.  (* Some(hit) => self.dm.scale(self.threshold) *)
+
+(* let index = c.col * sequence_rows + self.row + c.row: which of the three terms are present
+   (the translator reads the right-hand side as a sum of terms, in any order) *)
+Record idx_expr := { ix_col_rows : bool; ix_block_row : bool; ix_r : bool }.
+
+Definition ref_idx : idx_expr := {| ix_col_rows := true; ix_block_row := true; ix_r := true |}.
+
+Definition pindex (ix : idx_expr) (R rw r c : nat) : nat :=
+  (if ix_col_rows ix then c * R else 0) + (if ix_block_row ix then rw else 0) + (if ix_r ix then r else 0).
+
 Record shape := {
   (* ---- Iterator::next ---- *)
   n_loop_hits_empty : bool;   (* while self.hits.is_empty() && ..                         *)
   n_loop_cmp : cmp;           (* self.row  OP  sequence_rows                      (<)     *)
   n_end : end_expr;
   n_gate_cmp : cmp;           (* m  OP  t   in  max(..).map_or(false, |m| ..)     (>=)    *)
+  n_idx : idx_expr;           (* let index = ..                                           *)
   n_pad_cmp : cmp;            (* index  OP  max_index   guarding the skip         (>=)    *)
   n_pad_action : pad_action;
   n_thr_cmp : cmp;            (* score  OP  self.threshold                        (>=)    *)
@@ -40,6 +55,8 @@ Record shape := {
   m_loop_cmp : cmp;           (* self.row  OP  sequence_rows                      (<)     *)
   m_end : end_expr;
   m_gate_cmp : cmp;           (* m  OP  best_discrete                             (>=)    *)
+  m_init : init_src;          (* initial best_discrete when a buffered hit is kept        *)
+  m_idx : idx_expr;           (* let index = ..                                           *)
   m_dscore_cmp : cmp;         (* dscore  OP  best_discrete                        (>=)    *)
   m_index_cmp : cmp;          (* index  OP  max_index                             (<)     *)
   m_better_cmp : cmp;         (* score  OP  hit.score                             (>)     *)
@@ -51,9 +68,9 @@ Record shape := {
 
 (* the skeleton of scan.rs as repaired (commits 707d974, eff32de, 35a09bc) *)
 Definition ref_shape : shape := {|
-  n_loop_hits_empty := true; n_loop_cmp := CLt; n_end := EndMin; n_gate_cmp := CGe;
+  n_loop_hits_empty := true; n_loop_cmp := CLt; n_end := EndMin; n_gate_cmp := CGe; n_idx := ref_idx;
   n_pad_cmp := CGe; n_pad_action := PadContinue; n_thr_cmp := CGe; n_order := Lifo;
-  m_filter_cmp := CGe; m_loop_cmp := CLt; m_end := EndMin; m_gate_cmp := CGe;
+  m_filter_cmp := CGe; m_loop_cmp := CLt; m_end := EndMin; m_gate_cmp := CGe; m_init := InitScaleHitScore; m_idx := ref_idx;
   m_dscore_cmp := CGe; m_index_cmp := CLt; m_better_cmp := CGt; m_tie_cmp := CEq;
   m_tie_pos_cmp := CGt; m_bound := BoundScaleScore; m_first_cmp := CGe |}.
 
@@ -98,7 +115,7 @@ Section PScanner.
     match cands with
     | [] => Ok hs
     | (r, c) :: rest =>
-        let index := c * R + rw + r in
+        let index := pindex (n_idx sh) R rw r c in
         if cmpN (n_pad_cmp sh) index Lm then
           match n_pad_action sh with
           | PadContinue => pnext_cands rw rest hs
@@ -177,7 +194,7 @@ Section PScanner.
     | [] => Ok (best, bd)
     | (r, c) :: rest =>
         dscore <- dget_res d r c ;;
-        let index := c * R + rw + r in
+        let index := pindex (m_idx sh) R rw r c in
         if cmpN (m_dscore_cmp sh) dscore bd && cmpN (m_index_cmp sh) index Lm then
           s <- score_position index ;;
           match best with
@@ -216,7 +233,13 @@ Section PScanner.
 
   Definition psmax (s : st) : res (option hit) :=
     b0 <- max_by_score gtb eqb (filter (fun h => cmpT (m_filter_cmp sh) (snd h) thr) (rev (hits s))) ;;
-    let bd0 := match b0 with Some h => scale (snd h) | None => scale thr end in
+    let bd0 := match b0 with
+               | Some h => match m_init sh with
+                           | InitScaleHitScore => scale (snd h)
+                           | InitScaleThreshold => scale thr
+                           end
+               | None => scale thr
+               end in
     pmax_loop (S R) (row s) b0 bd0.
 
   Definition pmax_after (k : nat) : res (option hit) :=
